@@ -210,11 +210,15 @@ inductive Rc (Q : Type)
   | refused (w : World Q)    -- ConnectionRefusedError leaves `reconnect()`
   | timedOut (w : World Q)   -- TimeoutError of the 10 s reconnect window (DoIP)
 
+/-- `asyncio.sleep(0.1)` between two connection attempts of `BaseTransport.reconnect` -/
+def pollStep : Nat := 100
+
 /-- DoIP: one attempt every 100 ms -/
 def poll (sc : Scn) (w : World Q) : Nat → Nat → Option Nat
   | t, 0 => if accepts sc w t then some t else none
-  | t, n+1 => if accepts sc w t then some t else poll sc w (t + 100) n
+  | t, n+1 => if accepts sc w t then some t else poll sc w (t + pollStep) n
 
+/-- `DoIPTransport.reconnect`: `10 if timeout is None` -/
 def doipWindow : Nat := 10000
 
 /-- `transport.reconnect()`: close, then connect once (lines, HSFZ) or every 100 ms for 10 s (DoIP) -/
@@ -222,7 +226,7 @@ def wReconnect (P : Proto Q) (sc : Scn) (w : World Q) : Rc Q :=
   let fresh (t : Nat) : World Q := { w with cur := w.conns, conns := w.conns + 1, inbox := [], now := t, tclosed := false,
                                             c0 := { w.c0 with closed := true } }
   if P.kind == .doip then
-    match poll sc w w.now (doipWindow / 100 - 1) with
+    match poll sc w w.now (doipWindow / pollStep - 1) with
     | some t => .ok (fresh t)
     | none => .timedOut { w with now := w.now + doipWindow, tclosed := true, c0 := { w.c0 with closed := true } }
   else if accepts sc w w.now then .ok (fresh w.now)
